@@ -3,6 +3,7 @@ package prodrig
 import (
 	"bytes"
 	"fmt"
+	"os"
 	"sort"
 	"strconv"
 	"strings"
@@ -56,6 +57,7 @@ func (r *rig) judge() *gx.Outcome {
 				ev = append(ev, fmt.Sprintf("%s:err(%s)", e.id, e.err))
 			}
 		}
+		sort.Strings(ev) // arrival order across partitions depends on Go's map order; no oracle depends on it
 		var lg []string
 		for _, ps := range r.cl.Topics["t"] {
 			lg = append(lg, fmt.Sprintf("p%d=%v", ps.ID, logs[ps.ID]))
@@ -112,7 +114,7 @@ func (r *rig) judge() *gx.Outcome {
 			seen[id] = true
 			n := idNum(id)
 			if n < last {
-				out.Violate("C02", fmt.Sprintf("log-order rm=%d", p.RetryMax), "partition %d: first copies in the log are not in submission order: %v (%s); %s", part, l, cfg, summary())
+				out.Violate("C02", orderSig("log-order", p), "partition %d: first copies in the log are not in submission order: %v (%s); %s", part, l, cfg, summary())
 				break
 			}
 			last = n
@@ -133,7 +135,7 @@ func (r *rig) judge() *gx.Outcome {
 			sort.Slice(l, func(i, j int) bool { return l[i].n < l[j].n })
 			for i := 1; i < len(l); i++ {
 				if l[i].off <= l[i-1].off {
-					out.Violate("C02", fmt.Sprintf("offset-order rm=%d", p.RetryMax), "partition %d: m%d (offset %d) was submitted before m%d (offset %d) but both succeeded with non-increasing offsets (%s); %s", part, l[i-1].n, l[i-1].off, l[i].n, l[i].off, cfg, summary())
+					out.Violate("C02", orderSig("offset-order", p), "partition %d: m%d (offset %d) was submitted before m%d (offset %d) but both succeeded with non-increasing offsets (%s); %s", part, l[i-1].n, l[i-1].off, l[i].n, l[i].off, cfg, summary())
 					break
 				}
 			}
@@ -230,12 +232,13 @@ func (r *rig) judge() *gx.Outcome {
 			epoch int16
 		}
 		type sent struct {
-			first int32
-			ids   []string
+			first   int32
+			ids     []string
+			connErr bool // the request carrying it ended in a connection-level failure (no response)
 		}
-		next := map[key]int32{}
-		seenB := map[key][]sent{}
+		seenB := map[key][]*sent{}
 		for _, pe := range r.cl.Produced {
+			connErr := pe.Fault == "drop" || pe.Fault == "drop-appended"
 			for _, b := range pe.Batches {
 				if !b.IsBatch || b.PID < 0 {
 					out.Violate("C05", "unsequenced-batch", "idempotent producer sent a batch without producer id/sequence to partition %d", b.Partition)
@@ -246,23 +249,41 @@ func (r *rig) judge() *gx.Outcome {
 				for _, x := range b.Recs {
 					ids = append(ids, string(x.Value))
 				}
-				resend := false
+				var prev *sent
 				for _, s := range seenB[k] {
 					if s.first == b.FirstSeq {
-						resend = true
-						if fmt.Sprint(s.ids) != fmt.Sprint(ids) {
-							out.Violate("C05", "resend-differs", "partition %d epoch %d: batch with first sequence %d re-sent with different records: %v then %v (%s); %s", b.Partition, b.Epoch, b.FirstSeq, s.ids, ids, cfg, summary())
-						}
+						prev = s
 					}
 				}
-				if resend {
+				if prev != nil {
+					if fmt.Sprint(prev.ids) != fmt.Sprint(ids) {
+						sig := "resend-differs after-response"
+						if prev.connErr {
+							// known class: after a connection-level failure the producer re-queues the
+							// messages one by one and batches them afresh
+							sig = "resend-rebatched-after-connection-error"
+						}
+						out.Violate("C05", sig, "partition %d epoch %d: batch with first sequence %d re-sent with different records: %v then %v (%s); %s", b.Partition, b.Epoch, b.FirstSeq, prev.ids, ids, cfg, summary())
+						prev.ids = ids // the re-batched form supersedes the original for the continuity rule below
+					}
+					prev.connErr = connErr
 					continue
 				}
-				if b.FirstSeq != next[k] {
-					out.Violate("C05", "sequence-gap", "partition %d epoch %d: new batch %v starts at sequence %d, expected %d (%s); %s", b.Partition, b.Epoch, ids, b.FirstSeq, next[k], cfg, summary())
+				l := seenB[k]
+				var want int32
+				if len(l) > 0 {
+					want = l[len(l)-1].first + int32(len(l[len(l)-1].ids))
 				}
-				next[k] = b.FirstSeq + int32(len(b.Recs))
-				seenB[k] = append(seenB[k], sent{b.FirstSeq, ids})
+				if b.FirstSeq != want {
+					sig := "sequence-gap"
+					if b.Epoch > 0 && len(l) == 0 {
+						// known class: the epoch was bumped (a sequenced message failed) while this message
+						// already carried a sequence number of the previous epoch
+						sig = "stale-sequence-after-epoch-bump"
+					}
+					out.Violate("C05", sig, "partition %d epoch %d: new batch %v starts at sequence %d, expected %d (%s); %s", b.Partition, b.Epoch, ids, b.FirstSeq, want, cfg, summary())
+				}
+				seenB[k] = append(l, &sent{b.FirstSeq, ids, connErr})
 			}
 		}
 	}
@@ -327,10 +348,37 @@ func (r *rig) judge() *gx.Outcome {
 	}
 
 	out.Obs = summary()
+	if os.Getenv("VERIF_REPLAY") != "" {
+		var sb strings.Builder
+		for i, pe := range r.cl.Produced {
+			fmt.Fprintf(&sb, "  produce#%d conn=%s fault=%s:", i, pe.Conn, pe.Fault)
+			for k, b := range pe.Batches {
+				ids := []string{}
+				for _, x := range b.Recs {
+					ids = append(ids, string(x.Value))
+				}
+				v := pe.Verdicts[k]
+				fmt.Fprintf(&sb, " [p%d pid=%d epoch=%d seq=%d recs=%v -> appended=%v dup=%v base=%d err=%d answered=%v]", b.Partition, b.PID, b.Epoch, b.FirstSeq, ids, v.Appended, v.Duplicate, v.Base, int16(v.Err), v.Answered)
+			}
+			sb.WriteString("\n")
+		}
+		out.Detail = sb.String()
+	}
 	if hang {
 		out.Obs += " HANG"
 	}
 	return out
+}
+
+// orderSig: with Retry.Max=0 a failed request makes the producer abandon the broker worker while
+// that worker may still hold buffered messages of the partition; later messages overtake them through
+// the replacement worker. That defect class gets its own signature; any other reordering keeps the
+// generic one.
+func orderSig(kind string, p *Params) string {
+	if p.RetryMax == 0 && !p.Idem {
+		return "reorder-after-abandoned-broker-worker Retry.Max=0"
+	}
+	return fmt.Sprintf("%s rm=%d idem=%v", kind, p.RetryMax, p.Idem)
 }
 
 func hdrs(h []sarama.RecordHeader) string {
